@@ -254,7 +254,7 @@ def build(x):
                     assert((a / self.slide as int) * self.slide as int >= 0) by (nonlinear_arith) requires a / (self.slide as int) >= 0, self.slide >= 1;
                 }''')
     al.insert_before('self.ws.push_back(Slot::new(', 'let ghost ns = next_start;\n            ')
-    al.insert_after('next_start + self.size,\n            ));', '''
+    al.insert_after_stmt('self.ws.push_back(Slot::new(', '''
             proof {
                 let n = self.ws@.len() - 1;
                 assert(self.ws@ =~= before.ws@.push(self.ws@[n]));
